@@ -20,11 +20,20 @@ TECH = ('contract-based deductive verification (home-built VC generator over the
 TECH_B = 'contracts from the property statement evaluated on the real code over an exhaustively enumerated bounded scope (bounded stand-in of the contract-based technique; no obligation proved yet)'
 
 
+WHY_BOUNDED = {
+    'C09': 'No contract within reach of the verifier decides this property: it is an equality of floating-point values computed through matmul, axis reductions, weighted bincount means and NaN placement '
+           '(no specification of these in the engine\'s integer/real array theories).',
+    'C15': 'The statement equates correlogram entries with COUNTS of spike pairs; the counting loop (bincount of ravelled multi-indices over a shrinking mask) needs cardinality reasoning outside the '
+           'engine\'s first-order array theories. Only _diff_shifted is under contract (its obligations are discharged and reported), which does not carry the statement.',
+    'C18': 'The property is about C-implemented string codecs (json, base64, csv, str/int conversions, exec-based parameter files): outside the engine\'s theories, no contract within reach.',
+}
+
+
 def _default(pid):
     return {
         'level': 'exploration',
-        'text': 'Bounded stand-in only so far: the contracts of DESIGN section 4/%s (postconditions from the property statement, oracle independent of phylib) '
-                'are evaluated on the real functions over an exhaustively enumerated small scope (bound printed in the evidence). Nothing is claimed as proved.' % pid,
+        'text': WHY_BOUNDED.get(pid, '') + ' BOUNDED stand-in only (labelled bounded, never counted as proved): the contracts of DESIGN section 4/%s (postconditions from the property statement, oracle '
+                'independent of phylib) are evaluated on the real functions over an exhaustively enumerated small scope (bound printed in the evidence).' % pid,
         'note': 'Bounded: holds only for the enumerated scope. Trusted: NumPy/SciPy/mtscomp/csv/json as oracles, the numpy.lib.format import shim (A-SHIM).',
         'technique': TECH_B, 'design_ref': 'DESIGN.md section 4/%s' % pid, 'assumptions': [],
     }
